@@ -76,27 +76,48 @@ def choldec (b : CovBlock K) : Except ErrKind (DMat K) :=
 
 /-- `Adj::forwardSubstitution`: `for i: for j < i: v(i) -= chol(i,j)·v(j); v(i) /= chol(i,i)` -/
 def forwardSubst (d : Nat) (L : DMat K) (v : Array K) : Array K :=
-  (List.range d).foldl (fun (x : Array K) i =>
-      x.setIfInBounds i (subFrom (vget x i) 0 i (fun j => mget L i j * vget x j) / mget L i i)) v
+  sweep (List.range d) (fun i => i) (fun _ => 0) (fun i => i) (fun i j => mget L i j)
+    (fun i => some (mget L i i)) v
 
-/-- homogenised `(A_dot, b_dot)` (dense `m × n`, `m`) -/
+/-- `Adj::choldec` of every block, in order (the first rejected block throws) -/
+def factorsL : List (CovBlock K) → Except ErrKind (List (DMat K))
+  | [] => .ok []
+  | b :: bs =>
+    match choldec b with
+    | .error e => .error e
+    | .ok L =>
+      match factorsL bs with
+      | .error e => .error e
+      | .ok Ls => .ok (L :: Ls)
+
+/-- block index and offset of the observation `s` (0-based) for the block dimensions `dims` -/
+def locate : List Nat → Nat → Nat × Nat
+  | [], _ => (0, 0)
+  | d :: ds, s => if s < d then (0, 0) else ((locate ds (s - d)).1 + 1, (locate ds (s - d)).2 + d)
+
+/-- homogenised `(A_dot, b_dot)` (dense `m × n`, `m`): within the block (offset `r`, dimension `d`,
+    factor `L̃`) that contains row `s`, column `j` of `A_dot` is `forwardSubstitution(L̃, A(r+1..r+d, j))`
+    and `b_dot` is `forwardSubstitution(L̃, rhs(r+1..r+d))` -/
 def homogenise (p : Problem K) : Except ErrKind (DMat K × Array K) :=
   let A := p.dense
-  let step := fun (st : Nat × Array (Array K) × Array K) (blk : CovBlock K) => do
-    let L ← choldec blk
-    let r := st.1
-    let d := blk.dim
-    let t := forwardSubst d L (vmk d fun i => vget p.rhs (r + i))
-    let cols : Array (Array K) := Array.ofFn (n := p.n) fun j =>
-      forwardSubst d L (vmk d fun i => mget A (r + i) j.val)
-    let rowsNew : Array (Array K) := Array.ofFn (n := d) fun i => vmk p.n fun j => vget (cols.getD j #[]) i.val
-    pure (r + d, st.2.1 ++ rowsNew, st.2.2 ++ t)
-  (p.cov.foldlM step (0, #[], #[])).map fun st => (st.2.1, st.2.2)
+  let dims := p.cov.toList.map (·.dim)
+  match factorsL p.cov.toList with
+  | .error e => .error e
+  | .ok Ls =>
+    let Ad := mmk p.m p.n fun s j =>
+      let kr := locate dims s
+      let d := dims.getD kr.1 0
+      vget (forwardSubst d (Ls.getD kr.1 #[]) (vmk d fun i => mget A (kr.2 + i) j)) (s - kr.2)
+    let bd := vmk p.m fun s =>
+      let kr := locate dims s
+      let d := dims.getD kr.1 0
+      vget (forwardSubst d (Ls.getD kr.1 #[]) (vmk d fun i => vget p.rhs (kr.2 + i))) (s - kr.2)
+    .ok (Ad, bd)
 
 /-- the unit-covariance problem handed to a full solver -/
 def dotProblem (p : Problem K) (Ad : DMat K) (bd : Array K) (reg : Reg) : Problem K :=
   { m := p.m, n := p.n
-    rows := Array.ofFn (n := p.m) fun i => Array.ofFn (n := p.n) fun j => (j.val + 1, mget Ad i.val j.val)
+    rows := Array.ofFn (n := p.m) fun i => ((List.range p.n).map fun j => (j + 1, mget Ad i.val j)).toArray
     cov := #[⟨p.m, 0, Array.replicate p.m (Scalar.ofNat 1)⟩]
     rhs := bd
     reg := reg }
@@ -124,21 +145,43 @@ def regOf : Reg → Reg
 end AdjM
 
 open AdjM Dn in
+/-- sparse branch of `init_least_squares` (`AdjBaseSparse`): everything is the solver's -/
+def adjSparse (alg : Alg) : Solver K := fun p =>
+  let nm : Nat → Nat → Except ErrKind K := fun _ _ => .error .NotModelled
+  match solverOf (K := K) alg { p with reg := regOf p.reg } with
+  | .error e => .error e
+  | .ok s =>
+    -- `x_ = least_squares->unknowns()` : a throw there leaves `Adj` unsolved (every query throws)
+    match s.xErr with
+    | some e => .error e
+    | none =>
+    .ok { x := s.x, r := s.r, rtr := s.rtr, defect := s.defect, qxx := s.qxx, q0xx := nm,
+          qbb := qbb p s.q0xx, qbx := nm, lindep := fun _ => .error .NotModelled }
+
+open AdjM Dn in
+/-- full branch of `init_least_squares` (`AdjBaseFull`): homogenise, solve, `rtr = v̄ᵀv̄`,
+    residuals from the original rows -/
+def adjFull (alg : Alg) : Solver K := fun p =>
+  let nm : Nat → Nat → Except ErrKind K := fun _ _ => .error .NotModelled
+  match homogenise p with
+  | .error e => .error e
+  | .ok (Ad, bd) =>
+    match solverOf (K := K) alg (dotProblem p Ad bd (regOf p.reg)) with
+    | .error e => .error e
+    | .ok s =>
+      match s.xErr with
+      | some e => .error e
+      | none =>
+      .ok { x := s.x
+            r := origResiduals p s.x
+            rtr := sumFrom 0 p.m fun i => vget s.r i * vget s.r i
+            defect := s.defect, qxx := s.qxx, q0xx := nm
+            qbb := qbb p s.q0xx, qbx := nm, lindep := fun _ => .error .NotModelled }
+
 /-- answers of a fresh `Adj` object configured with `alg` on problem `p` -/
 def adjSolve (alg : Alg) : Solver K := fun p =>
-  let nm : Nat → Nat → Except ErrKind K := fun _ _ => .error .NotModelled
   match alg with
-  | .env => do
-    let s ← solverOf (K := K) alg { p with reg := regOf p.reg }
-    pure { x := s.x, r := s.r, rtr := s.rtr, defect := s.defect, qxx := s.qxx, q0xx := nm,
-           qbb := qbb p s.q0xx, qbx := nm, lindep := fun _ => .error .NotModelled }
-  | _ => do
-    let (Ad, bd) ← homogenise p
-    let s ← solverOf (K := K) alg (dotProblem p Ad bd (regOf p.reg))
-    pure { x := s.x
-           r := origResiduals p s.x
-           rtr := sumFrom 0 p.m fun i => vget s.r i * vget s.r i
-           defect := s.defect, qxx := s.qxx, q0xx := nm
-           qbb := qbb p s.q0xx, qbx := nm, lindep := fun _ => .error .NotModelled }
+  | .env => adjSparse alg p
+  | _ => adjFull alg p
 
 end Gama.Ls
